@@ -412,4 +412,10 @@ decreasing_by
     simp only [List.length_drop, List.length_cons] at *
     omega
 
+/-- `iwini_parse_file(file, handler, user)` for a file holding `content` (any bytes, NULs included): the reader is
+    `fgets`, trusted to do what C11 7.21.7.2 says — store at most `num - 1` bytes, stop behind a newline, terminate —
+    which is the cutting rule `chunks`. -/
+def parseFile (cfg : Cfg) (h : Handler) (junk content : Bytes) : PR :=
+  parseFills cfg h junk (chunks cfg.readerNum content)
+
 end IwModel.Ini
